@@ -323,6 +323,14 @@ func TestVF_C01(t *testing.T) {
 			if !judge("F1-single", a.name, p, "reject", true) {
 				return
 			}
+			// the same alteration made in place on an object that has already been verified
+			// successfully (what verification derived from the proof must not outlive its data)
+			p2 := copyProofD(honest)
+			if acc, _, _ := c01Verify(c, p2); acc && a.f(p2) {
+				if !judge("F1-single-after-verification", a.name, p2, "reject", true) {
+					return
+				}
+			}
 		}
 		for k := 0; k < rec.N(3, 8); k++ {
 			x, y := pick.Draw(rt, "pa"), pick.Draw(rt, "pb")
